@@ -50,6 +50,10 @@ bpm_values = st.one_of(
     st.integers(1, 999),
     st.integers(0, 8).flatmap(lambda k: st.integers(10 ** k, 10 ** (k + 1))),
     st.sampled_from([1, 999, 1000, 1118, 20548, 21952, 120_000, 10 ** 9 - 1, 10 ** 9]),
+    # round "musical" tempos: at the usual resolutions the exact time of many ticks is exactly a half
+    # microsecond, where two float computations of one time that differ only in operation order round apart
+    st.sampled_from([120_000, 104_000, 96_000, 140_000, 90_000, 150_000, 200_000, 60_000, 180_000, 240_000,
+                     128_000, 125_000, 100_000, 93_750, 75_000, 160_000]),
 )
 
 extreme_bpm_values = st.one_of(
@@ -394,8 +398,11 @@ SONG_EXTRAS = [
     ("PreviewEnd", st.sampled_from(["0", "60", "99999"])),
     ("Difficulty", st.sampled_from(["0", "3", "6"])),
     ("Player2", st.sampled_from(["bass", "rhythm"])),
-    ("Name", st.sampled_from(['"Song"', '"e\u0301t\u00e9"', '"Offset = 5"'])),
-    ("Artist", '"Artist"'), ("Charter", '"someone"'), ("Album", '"Album"'), ("Year", '", 2018"'),
+    ("Name", st.sampled_from(['"Song"', '"e\u0301t\u00e9"', '"Offset = 5"', '"Screen Resolution = 96"', '"Resolution = 7"'])),
+    ("Artist", '"Artist"'), ("Charter", st.sampled_from(['"someone"', '"Resolution = 1"'])),
+    ("Album", st.sampled_from(['"Album"', '"Offset = 9"', '"Player2 = rhythm"'])), ("Year", '", 2018"'),
+    # keys that merely END in a field name the library knows (a line is its field's line only as a whole)
+    ("HiResolution", st.sampled_from(["96", "1", "480"])), ("MaxOffset", "7"), ("OldResolution", "5"),
     ("Genre", st.sampled_from(['"rock"', '"metal"'])), ("MediaType", '"cd"'),
     ("MusicStream", '"song.ogg"'), ("GuitarStream", '"guitar.ogg"'), ("DrumStream", '"drums.ogg"'),
     # fields other tools write or read (song.ini spellings included); the format documentation of this
